@@ -2,7 +2,7 @@
 piecewise = one-shot, for all cut sets (MC_MDObj).  Bind: every call history of MC_PadHist replayed on the real
 MD4/MD5/SHA-1/SHA-2/BLAKE objects (BLAKE2: see c11/blake2rec) - TLC recomputes chaining values and digests;
 Nilsimsa: every byte cut."""
-import core, hashrec as H
+import core, hashrec as H, blake2rec as B2
 
 def instantiate(name, hist, rnd, k):
     r = H.Rec(name); r.init(); Bb = H.blockbytes(name)
@@ -26,6 +26,19 @@ def instantiate(name, hist, rnd, k):
         elif op == 'reset':
             r.init(); fed = 0; flag = False
         # 'remove' has no counterpart on a hash object
+    return r.trace(dict(kind='history', calls=[(c['op'], c['k'], c['rc']) for c in hist]))
+
+def instantiate2(b, hist, rnd, k):
+    r = B2.Rec2(b); Bb = 128 if b else 64
+    r.init(B2.par(b, outlen=[None, 20, 1][k % 3]), explicit_outlen=bool(k % 3))
+    for j, c in enumerate(hist):
+        op = c['op']
+        if op == 'cont': r.update(H.content(rnd, c['k'] * Bb, (k + j) % 3), padding=False)
+        elif op == 'contbad': r.update(H.content(rnd, Bb + 1 + (k % (Bb - 1)), 0), padding=False)
+        elif op == 'final':
+            res = [0, 1, Bb // 2, Bb - 2, Bb - 1][c['rc'] - 1]
+            r.update(H.content(rnd, c['k'] * Bb + res, (k + j) % 5), padding=True)
+        elif op == 'reset': r.init(B2.par(b))
     return r.trace(dict(kind='history', calls=[(c['op'], c['k'], c['rc']) for c in hist]))
 
 def run(ctx):
@@ -58,6 +71,14 @@ def run(ctx):
     ctx.exhaustive_subspaces.append('all %d call histories of depth <= %d (cont 0..2 blocks / bad continuation / final 0..1 blocks x 5 residue classes / over-long / re-init) over 14 hash objects (round-robin%s)' % (len(uniq), D, ', every third on all' if big else ''))
     ctx.sample(dict(alg=traces[5]['name'], scen=traces[5]['scen'], events=[{k: v for k, v in e.items() if k != 'm'} for e in traces[5]['ev']]))
     H.validate(ctx, traces, 'piecewise histories')
+    t2 = []
+    for k, h in enumerate(uniq):
+        h2 = [c for c in h if c['op'] != 'overlong']
+        if not any(c['op'] in ('cont', 'final') for c in h2): continue
+        if not big and k % 4: continue
+        t2.append(instantiate2(bool(k % 2), h2, rnd, k)); ctx.mark(('blake2', k % 2, str(t2[-1]['scen']['calls'])))
+    ctx.sample(dict(b=t2[3]['b'], scen=t2[3]['scen'], events=[{x: v for x, v in e.items() if x != 'm'} for e in t2[3]['ev']]))
+    B2.validate(ctx, t2, 'BLAKE2 piecewise histories')
     # Nilsimsa: update(a).update(b).digest() = Nilsimsa()(a|b) for every byte cut - judged by Trace_Nilsimsa (see c19) when available
     r = H.Rec('md5'); r.init(); r.update(b'x' * 64, padding=False); r.update(b'tail', padding=True)
     def corrupt(t): t['ev'][1]['bitcnt'][0] += 8; return t
